@@ -127,7 +127,7 @@ func (g *Generate) Parse() error {
 		}
 
 		processDuplicates(values, traits, enumType) // detect and warn duplicates
-		err = validateParsableTraits(enumType, traits)
+		err = validateParsableTraits(enumType, values, traits)
 		if err != nil {
 			return err
 		}
@@ -151,7 +151,7 @@ func (g *Generate) Parse() error {
 //	)
 //
 // This will throw an error because "val" matches E1 and E2.
-func validateParsableTraits(enumType string, traits TraitDescs) error {
+func validateParsableTraits(enumType string, values Values, traits TraitDescs) error {
 	// Two instances clash when they denote the same constant (same type, equal value) — that is
 	// what Parse<T> compares, however the constant is spelled on its line — but belong to
 	// different enum values. Without type information the spelling is compared, as before.
@@ -161,6 +161,16 @@ func validateParsableTraits(enumType string, traits TraitDescs) error {
 			continue
 		}
 		for _, instance := range trait.Traits {
+			// A plain string trait must not spell the name of another definition: Parse<T> could
+			// not tell the trait value from that name.
+			for _, v := range values {
+				if v.Name != instance.OwningValue.Name && instance.isName(v.Name) {
+					return fmt.Errorf(
+						"Enum: %s cannot have parsableTrait %s because trait value %s of %s is "+
+							"also the name of %s. parsableByTrait values must be unique within the enum.",
+						enumType, trait.Name, instance.value, instance.OwningValue.Name, v.Name)
+				}
+			}
 			for _, other := range seen {
 				if other.OwningValue.Name != instance.OwningValue.Name && other.clashesWith(instance) {
 					return fmt.Errorf(
